@@ -51,3 +51,31 @@ def returned_names(fnode):
                 out |= {e.id for e in r.value.elts
                         if isinstance(e, ast.Name)}
     return out
+
+
+def contributions(fnode, name):
+    """What is put into the local list ``name``: [(expr, node, kind)] with
+    kind 'extend' (expr is a sequence of elements: ``name.extend(E)``,
+    ``name += E``, ``name = E`` for a non-empty E) or 'append' (expr is one
+    element).  ``node`` is the call or statement, for positions/guards."""
+    out = []
+    for n in A.walk_no_nested(fnode):
+        if isinstance(n, ast.Call) and A.call_name(n) in (
+                'extend', 'append') and A.is_name(
+                A.call_receiver(n), name) and n.args:
+            out.append((n.args[0], n, A.call_name(n)))
+        elif isinstance(n, ast.AugAssign) and isinstance(
+                n.op, ast.Add) and A.is_name(n.target, name):
+            out.append((n.value, n, 'extend'))
+        elif isinstance(n, (ast.Assign, ast.AnnAssign)) and \
+                n.value is not None and any(
+                A.is_name(t, name) for t in (
+                    n.targets if isinstance(n, ast.Assign)
+                    else [n.target])):
+            v = n.value
+            if isinstance(v, (ast.List, ast.Tuple)):
+                for e in v.elts:
+                    out.append((e, n, 'append'))
+            elif not (isinstance(v, ast.Constant) and v.value is None):
+                out.append((v, n, 'extend'))
+    return out
